@@ -651,6 +651,9 @@ def _choices_block_obligations(ctx, rule, rid):
         "a repeated choice name": ([{"list_name": "l", "name": "a", "label": "A"}, {"list_name": "l", "name": "b", "label": "B"}, {"list_name": "l", "name": "a", "label": "C"}], "error", 4),
         "a choice without a label": ([{"list_name": "l", "name": "a", "label": "A"}, {"list_name": "l", "name": "b"}], "warning", 3),
         "a well-formed list": ([{"list_name": "l", "name": "a", "label": "A"}, {"list_name": "m", "name": "a", "label": "A2"}], "ok", None),
+        # rows that went through an earlier conversion carry the row number written then; the number cited is today's position
+        "a choice without a name, rows numbered by an earlier conversion": ([{"list_name": "l", "name": "a", "label": "A", "__row": 7}, {"list_name": "l", "label": "B", "__row": 9}], "error", 3),
+        "a choice without a label, rows numbered by an earlier conversion": ([{"list_name": "l", "name": "a", "label": "A", "__row": 2}, {}, {"list_name": "l", "name": "b", "__row": 3}], "warning", 4),
     }
     for clean in (True, False):
         for desc, (rows, want, row_no) in LISTS.items():
